@@ -50,6 +50,9 @@ pub enum HOp {
     /// `memory().evict_all()`
     EvictMem,
     Clear,
+    /// `clear()` called while device writes are held at the io gate (released 30 ms later by another task): entries are
+    /// queued / in flight in the flushers when the clear starts
+    ClearWithWritesInFlight,
     /// graceful close, then reopen on the same directory
     CloseReopen,
     /// let background tasks run until the device is quiet
@@ -245,6 +248,19 @@ impl Exec {
                 self.release_all();
                 let _ = self.cache().clear().await;
             }
+            HOp::ClearWithWritesInFlight => {
+                self.ctl.flush_switch.off();
+                self.flush_held = false;
+                let io = self.ctl.io.clone();
+                let releaser = tokio::spawn(async move {
+                    tokio::time::sleep(std::time::Duration::from_millis(30)).await;
+                    io.release_writes();
+                });
+                let _ = self.cache().clear().await;
+                let _ = releaser.await;
+                self.release_all();
+                self.settle().await;
+            }
             HOp::CloseReopen => {
                 self.release_all();
                 let c = self.cache.take().unwrap();
@@ -394,7 +410,7 @@ impl Oracle {
                     st.requeue_race = true;
                 }
             }
-            HOp::Clear => {
+            HOp::Clear | HOp::ClearWithWritesInFlight => {
                 for st in self.keys.values_mut() {
                     st.current = None;
                     st.removed = false;
@@ -570,7 +586,7 @@ impl Gen {
         let k = *rng.pick(&self.keys);
         let k2 = *rng.pick(&self.keys);
         let ins = |g: &Gen, rng: &mut Rng, k: u64| HOp::Insert { k, size: g.size(rng), loc: g.loc(k) };
-        match rng.below(12) {
+        match rng.below(13) {
             // entry only in the write queue (flush held): overwrite / remove, then look up
             0 => vec![
                 HOp::HoldFlush,
@@ -642,6 +658,21 @@ impl Gen {
                 HOp::Remove { k },
                 HOp::GetOrFetch { k, size: self.size(rng) },
                 HOp::ReleaseFlush,
+            ],
+            // clear() while inserts are still queued / in flight in the flushers
+            11 if self.allow_clear => vec![
+                ins(self, rng, k),
+                HOp::HoldWrites,
+                ins(self, rng, k2),
+                ins(self, rng, k),
+                HOp::EvictMem,
+                HOp::ClearWithWritesInFlight,
+                HOp::Get { k },
+                HOp::Get { k: k2 },
+                HOp::Wait,
+                HOp::EvictMem,
+                HOp::Get { k },
+                HOp::Get { k: k2 },
             ],
             // one key on disk, another one only in the write queue (matters when the two collide on the hash)
             10 if k != k2 => vec![
